@@ -37,7 +37,8 @@ pub struct Case {
     pub ops: Vec<Op>,
 }
 
-const NAMES: [&str; 8] = ["a", "b", "c", "p::x", "p::y", "q", "p", "ap"];
+// ("p::" is exactly a scope prefix; "b#1" and "q r" are names that a script-level re-parse would cut)
+const NAMES: [&str; 11] = ["a", "b", "c", "p::x", "p::y", "q", "p", "ap", "p::", "b#1", "q r"];
 const VALUES: [&str; 10] = ["1", "", "hello", "two words", "h\u{e9}llo \u{6f22}", "false", "handle:abcdefghij0123456789", "p::x", "--copy", "a"];
 
 #[derive(Clone, Debug, Default)]
